@@ -129,7 +129,8 @@ impl Sub for Weekday {
 impl Add<u8> for Weekday {
     type Output = Self;
     fn add(self, rhs: u8) -> Self {
-        Self::from(u8::from(self) + rhs)
+        // Reduce the day count first: the sum of a weekday and a large u8 does not fit in a u8.
+        Self::from(u8::from(self) + rhs % Self::MAX)
     }
 }
 
@@ -137,7 +138,8 @@ impl Sub<u8> for Weekday {
     type Output = Self;
     fn sub(self, rhs: u8) -> Self {
         // We can safely cast the weekdays as u8 into i8 because the maximum value is 6, and the max value of a i8 is 127.
-        Self::from(u8::from(self) as i8 - rhs as i8)
+        // Reduce the day count first: a u8 of 128 or more is a negative number once cast to an i8.
+        Self::from(u8::from(self) as i8 - (rhs % Self::MAX) as i8)
     }
 }
 
